@@ -285,6 +285,8 @@ class Pool:
             tests = [t for t in tests if MARKER in t] or tests
         else:
             tests = [t for t in tests if "unwinding assertion" not in t] or tests
+        # Kani also emits a test per satisfied cover! goal; those inputs need not violate anything: prefer the assertion tests
+        tests = [t for t in tests if "Check for `cover`" not in t and "cover condition" not in t] or tests
         return tests[0]
 
     def cleanup(self):
